@@ -543,6 +543,13 @@ def run(ctx):
         if not np.all(np.isfinite(nX)):
             ctx.discarded += 1
             continue
+        if not np.all(np.isfinite(z)):
+            # a finite, clipped normalised signal with a non-finite quadrature component: state it through frequency_transform
+            r = oracle_ft(X, 1.0, 'quad', 5) if len(X) >= 2 else None
+            if r:
+                violation(r[0], r[1], dict(kind='ft', x=[float(v).hex() for v in X[:, 0]], sample_rate=1.0, method='quad', smooth=5))
+            ctx.discarded += 1
+            continue
         qcases.append((X, nX, z))
         lits.append(frl(nX[:, 0]))
     mo = ctx.model_outputs(IMPORTS, lits, 'fun l => run_freq 9 [8; 1] [1; 1] [1; 1] l', shard=300)
